@@ -407,8 +407,29 @@ func NewEmbedFixtures() []EmbedFixture {
 		&HolderLogger{},
 		&HolderBlank{N: "SENTINEL", BlankMix: BlankMix{Name: "SENTINEL"}},
 		&HolderTwoPaths{},
+		&HolderZeroMarks{},
 		&HolderBothTags{},
 		&HolderPtrPrefixed{Defaults: PtrPrefixed{Keep: "SENTINEL", N: 4242}, Shadow: PtrPrefixed{Keep: "SENTINEL", N: 4242}},
 		&HolderTaggedEmbeds{Stamped: Stamped{Inner: "SENTINEL"}, OptionsMix: OptionsMix{V: "SENTINEL"}},
 		&HolderPrefixedEmbed{PrefixedMix: PrefixedMix{Keep: "SENTINEL", Num: 4242, hidden: 777}}}
+}
+
+// An embedded struct that consists of zero-size tagged marker fields only (route / permission markers): it
+// has size 0 and is scanned all the same. The user tag `mytag` is on the marker fields; `latetag` is the tag
+// of a user processor that learns its tag name only when the factory is prepared.
+type RouteMarks struct {
+	List struct{} `mytag:"GET /list,k=a"`
+	Del  [0]int   `mytag:"DELETE /item"`
+}
+type HolderZeroMarks struct {
+	RouteMarks
+	Own   string `value:"own"`
+	Topic string `latetag:"orders,k=v"`
+}
+
+func (h *HolderZeroMarks) Check(nameOf func(any) string) []string {
+	if h.Own != "own" {
+		return []string{fmt.Sprintf("Own=%q, expected own", h.Own)}
+	}
+	return nil
 }
